@@ -116,6 +116,9 @@ type Exec struct {
 	topFrame    *Frame
 	cfgCache    map[*ssa.Function]*cfgInfo
 	lockMode    bool
+	loopLocks   map[loopKey][]autoInv
+	guardMode   bool
+	freshRefs   map[*Term]bool
 	sectionOld  map[string]*State // state at Lock per monitor key (for section clauses)
 	sequential  bool
 	concrete    bool
@@ -989,6 +992,23 @@ func (x *Exec) enterLoop(fr *Frame, li *loopInfo, entry *State) *State {
 		pos = node.Pos()
 	}
 	auto := x.autoInvariant(fr, li)
+	if x.lockMode {
+		// critical sections are balanced inside loop bodies: every mutex flag heap is the same at
+		// the loop head as on entry (asserted at the back edge)
+		if x.loopLocks == nil {
+			x.loopLocks = map[loopKey][]autoInv{}
+		}
+		var la []autoInv
+		for _, hn := range x.env.mutexHeaps() {
+			hn := hn
+			ev := entry.H(hn, arraySort(sortInt, sortBool))
+			la = append(la, autoInv{desc: "lock flags " + strings.TrimPrefix(hn, "ghost:") + " as on loop entry", eval: func(st *State) *Term {
+				return mkEq(st.H(hn, arraySort(sortInt, sortBool)), ev)
+			}})
+		}
+		x.loopLocks[loopKey{fr, li}] = la
+		auto = append(auto, la...)
+	}
 	// 1. invariants hold on entry
 	for _, cl := range invs {
 		x.assertClause(entry, "loop-entry", fmt.Sprintf("loop %d: ", ord), x.clauseEnv(fr, entry, nil), cl, pos)
@@ -1027,12 +1047,21 @@ func (x *Exec) backEdge(fr *Frame, li *loopInfo, st *State) {
 	if node != nil {
 		pos = node.Pos()
 	}
-	for _, a := range x.autoInvariant(fr, li) {
-		x.assert(st, "loop-preserve", fmt.Sprintf("loop %d: auto %s", ord, a.desc), a.eval(st), pos, nil)
+	for _, a := range append(x.autoInvariant(fr, li), x.loopLocks[loopKey{fr, li}]...) {
+		kind := "loop-preserve"
+		if strings.HasPrefix(a.desc, "lock flags") {
+			kind = "lock"
+		}
+		x.assert(st, kind, fmt.Sprintf("loop %d: auto %s", ord, a.desc), a.eval(st), pos, nil)
 	}
 	for _, cl := range x.loopInvariants(fr, ord) {
 		x.assertClause(st, "loop-preserve", fmt.Sprintf("loop %d: ", ord), x.clauseEnv(fr, st, nil), cl, pos)
 	}
+}
+
+type loopKey struct {
+	fr *Frame
+	li *loopInfo
 }
 
 type autoInv struct {
